@@ -99,7 +99,7 @@ def run_check(prop: str, tier: str, verif_seed: int, runs: int | None, shrink_en
             extra["harness_errors"] = extra.get("harness_errors", 0) + fid.pop("harness_errors")
             extra["x_fidelity_real_lifetimes"] = fid
         if prop == "C09":
-            ro = readme_phase(pools, prop, verif_seed, 6 if tier == "quick" else 60)
+            ro = readme_phase(pools, prop, verif_seed, 8 if tier == "quick" else 60)
             extra.setdefault("violations", []).extend(ro.pop("violations"))
             extra["harness_errors"] = extra.get("harness_errors", 0) + ro.pop("harness_errors")
             extra["x_readme_boot_order_real_processes"] = ro
